@@ -1,5 +1,6 @@
 (* Draft model of ieee488.c SCPI_RegSet and friends, error.c classification, and the status commands. *)
 From Coq Require Import Bool List NArith ZArith Lia.
+From M Require Generated.
 Import ListNotations.
 Local Open Scope N_scope.
 Local Open Scope bool_scope.
@@ -57,8 +58,9 @@ Definition RegClearBits s r b cb := RegSet s r (N.ldiff (s r) b) cb.
 
 (* error classification table: (from, to, bit) as in error.c (from >= to for a non-empty range) *)
 Local Open Scope Z_scope.
-Definition errs : list (Z*Z*N) :=
-  [(-100,-199,32%N); (-200,-299,16%N); (-300,-399,8%N); (32767,1,8%N); (-400,-499,4%N); (-500,-599,128%N); (-600,-699,64%N); (-700,-799,2%N); (-800,-899,1%N)].
+(* the table itself is what the translator printed from error.c on this run: a reordered or extended table is re-classified
+   by evaluation (C12Proofs.classify), a wrong one makes that evaluation fail *)
+Definition errs : list (Z*Z*N) := Generated.gen_err_classes.
 Definition class_bits (err:Z) : list N :=
   flat_map (fun '(from,to,b) => if (err <=? from) && (to <=? err) then [b] else []) errs.
 
